@@ -96,10 +96,6 @@ theorem rsafe_replaceChar (hS : S.Stable) (hnp : cfg.hinterPanicAt = none) (c : 
   exact rsafe_of cfg hs (keeps_grow_execute S U cfg _ rfl) (keeps_inp_execute S U cfg _) h
 
 
-/-- the cross-step fact `YankPop` needs: the text of the last yank stands right before the cursor -/
-def PopOK (s : Ed) : Prop :=
-  ∀ size, s.ring.lastAction = .yank size → size ≤ s.line.pos ∧ IsBoundary s.line.buf (s.line.pos - size)
-
 /-- `YankPop` from the read invariant, WHEN the last yank still stands before the cursor (true right
     after an emacs-mode yank or yank-pop; not after vi `p`/`P`, which move the cursor back) -/
 theorem rsafe_yankPop (hnp : cfg.hinterPanicAt = none) {s : Ed} (h : RdInv cfg s) (hp : PopOK s) :
